@@ -291,6 +291,14 @@ func (c *FnCtx) typeFacts(st *State, v *Term, t types.Type) {
 		c.addFact(st, ts.And(ts.Le(ts.Int(0), v), ts.Lt(v, st.wm)))
 	case *types.Array:
 		c.addFact(st, ts.Eq(ts.Len(v), ts.Int(u.Len())))
+	case *types.Slice:
+		switch u.Elem().Underlying().(type) {
+		case *types.Pointer, *types.Map:
+			// every element is an allocated object (or nil)
+			bv := ts.Bound("e", SInt)
+			el := ts.Nth(v, bv)
+			c.addFact(st, ts.Quant("forall", bv, ts.Implies(ts.And(ts.Le(ts.Int(0), bv), ts.Lt(bv, ts.Len(v))), ts.And(ts.Le(ts.Int(0), el), ts.Lt(el, st.wm)))))
+		}
 	}
 }
 
@@ -621,6 +629,14 @@ func (c *FnCtx) enterLoop(fr *Frame, h *ssa.BasicBlock, ord int, st *State) *Sta
 	c.writeLog = savedLog
 	// 3. havoc
 	out := st.clone()
+	if wl.wm {
+		nw := ts.Fresh(fmt.Sprintf("lp%d!wm", ord), SInt)
+		c.addFact(out, ts.Ge(nw, st.wm))
+		out.wm = nw
+		if c.writeLog != nil {
+			c.writeLog.wm = true
+		}
+	}
 	var cells []*Cell
 	for cell := range wl.cells {
 		cells = append(cells, cell)
@@ -689,14 +705,6 @@ func (c *FnCtx) enterLoop(fr *Frame, h *ssa.BasicBlock, ord int, st *State) *Sta
 			for _, o := range inv {
 				c.setHeapAt(out, hname, srt, o, ts.Fresh(fmt.Sprintf("lp%d!%s", ord, hname), es))
 			}
-		}
-	}
-	if wl.wm {
-		nw := ts.Fresh(fmt.Sprintf("lp%d!wm", ord), SInt)
-		c.addFact(out, ts.Ge(nw, st.wm))
-		out.wm = nw
-		if c.writeLog != nil {
-			c.writeLog.wm = true
 		}
 	}
 	// 4. assume invariants
